@@ -26,8 +26,8 @@
 EXTENDS Naturals, Integers, Sequences, FiniteSets, TLC, Json, IOUtils, SequencesExt, Functions,
         FiniteSetsExt, DomFlowCore
 
-CONSTANT FreeOrder      \* FALSE: worklist is processed smallest block first (deterministic, one path per function)
-                        \* TRUE : any block of the worklist may be processed (design check: confluence)
+CONSTANT FreeOrder      \* FALSE: the worklist is processed in sweeps in layout order (deterministic, one path per function)
+                        \* TRUE : any single block of the worklist may be processed (design check: confluence)
 
 Mods  == ndJsonDeserialize(IOEnv.QBEWF_MODS)
 NMods == Len(Mods)
@@ -431,11 +431,31 @@ JudgeFunc ==
   /\ phase' = "flow"
   /\ UNCHANGED <<unit, iters>>
 
+(* one evaluation of the equation of block b (design configuration: any b of the worklist) *)
 Propagate(b) ==
   /\ phase = "flow" /\ b \in work
-  /\ FreeOrder \/ b = MinOf(work)
+  /\ FreeOrder
   /\ In' = [In EXCEPT ![b] = NewIn(fa, In, b)]
   /\ work' = NewWork(fa, In, work, b)
+  /\ iters' = iters + 1
+  /\ UNCHANGED <<unit, phase, fa>>
+
+(* one sweep = Propagate for every block of the worklist in layout order, blocks that enter the       *)
+(* worklist behind the cursor are taken in the same sweep (production configuration: one TLC state   *)
+(* per sweep instead of one per block evaluation; the fixpoint reached is the same, FlowFixpoint      *)
+(* checks it at quiescence and MC_QbeWF_design.cfg checks confluence of the single steps).            *)
+SweepResult ==
+  FoldLeft(LAMBDA acc, b :
+             IF b \notin acc.w THEN acc
+             ELSE LET n == NewIn(fa, acc.in, b)
+                  IN IF n = acc.in[b] THEN [acc EXCEPT !.w = @ \ {b}]
+                     ELSE [in |-> [acc.in EXCEPT ![b] = n], w |-> (acc.w \ {b}) \cup fa.succ[b]],
+           [in |-> In, w |-> work], [i \in 1..fa.nb |-> i])
+Sweep ==
+  /\ phase = "flow" /\ work # {}
+  /\ ~FreeOrder
+  /\ In' = SweepResult.in
+  /\ work' = SweepResult.w
   /\ iters' = iters + 1
   /\ UNCHANGED <<unit, phase, fa>>
 
@@ -448,7 +468,7 @@ Finish ==
   /\ phase' = "done"
   /\ UNCHANGED <<unit, fa, In, work, iters>>
 
-Next == JudgeProc \/ JudgeModule \/ JudgeFunc \/ (\E b \in work : Propagate(b)) \/ Finish
+Next == JudgeProc \/ JudgeModule \/ JudgeFunc \/ (\E b \in work : Propagate(b)) \/ Sweep \/ Finish
 
 Spec == Init /\ [][Next]_vars
 
